@@ -40,6 +40,9 @@ kf("C01", "C01-switch-all-break-unreachable", "a switch whose every clause ends 
 kf("C01", "C01-private-subobject-pointer-argument", "`f(&x[i])` with x a private array/matrix and f taking ptr<private, T>: the argument is spilled to a Function-class temporary (or an access chain of the wrong class is built), so OpFunctionCall/OpAccessChain pointer types disagree in storage class (invalid SPIR-V)",
    ["C01|F4idx/ptrarg-*/private/*|*|malformed-output:OpFunctionCall*", "C01|F4idx/ptrarg-*/private/*|*|malformed-output:OpAccessChain*"])
 
+kf("C01", "C01-private-initialiser-dropped", "the initialiser of a module-scope private variable is dropped: `var<private> pq: u32 = 3u;` is emitted as OpVariable Private without an initializer operand (the constant 3 does not occur in the module), so every function that reads pq before writing it sees 0/undefined instead of 3; HLSL, MSL and GLSL keep the initialiser. Seen with one entry point as well as with several",
+   ["C01|F5reach/*Q@*|*|mismatch"])
+
 # ---------------------------------------------------------------- C03 (HLSL semantics)
 kf("C03", "C03-clz-ctz", "countLeadingZeros/countTrailingZeros are emitted as bare firstbithigh/firstbitlow (clz(1)=0, ctz(0)=0xFFFFFFFF instead of 32)",
    ["C03|F1/call/countLeadingZeros/*|*|mismatch", "C03|F1/call/countTrailingZeros/*|*|mismatch"])
